@@ -8,13 +8,13 @@ CL = "pynguin.master_worker.client"
 WO = "pynguin.master_worker.worker"
 
 
-@variant("C33", "sending-end-left-open", MA, "C33.eof", "sending_connection.close() dropped")
+@variant("C33", "twin-sending-end-left-open", MA, None, "parent keeps its copy of the sending end open: harmless since the master watches the worker's liveness (was a break while get_result relied on EOF)")
 def _v1(repo, mod):
     fn = repo.func(MA, "RunningTask._start_worker")
     return delete_stmt(mod, find_stmt(fn, lambda s: isinstance(s, ast.Expr) and norm(s) == "sending_connection.close()"))
 
 
-@variant("C33", "sending-end-stored", MA, "C33.eof", "sending end kept in an attribute")
+@variant("C33", "twin-sending-end-stored", MA, None, "sending end stored in an attribute: harmless since the master watches the worker's liveness (was a break while get_result relied on EOF)")
 def _v2(repo, mod):
     fn = repo.func(MA, "RunningTask._start_worker")
     s = find_stmt(fn, lambda s: isinstance(s, ast.Assign) and norm(s.targets[0]) == "self._task")
